@@ -1295,6 +1295,7 @@ bool SPxSolverBase<R>::performSolutionPolishing()
       alloweddeviation = entertol();
 
       instableEnter = false;
+      thepricer->setType(type());
       theratiotester->setType(type());
 
       int nrows = this->nRows();
@@ -1457,6 +1458,7 @@ bool SPxSolverBase<R>::performSolutionPolishing()
       init();
       alloweddeviation = leavetol();
       instableLeave = false;
+      thepricer->setType(type());
       theratiotester->setType(type());
       bool useIntegrality = false;
       int ncols = this->nCols();
